@@ -9,5 +9,7 @@ import DateutilVerif.Properties.C14
 #print axioms C14.parse_terminates
 #print axioms C14.parse_pure
 #print axioms C14.token_list_written_only_by_sign_flip
-#print axioms C14.parse_bad_tzstring_escapes
+#print axioms C14.parse_bad_tzstring_is_ParserError
+#print axioms C14.build_tzaware_bad_tzstring_ValueError
+#print axioms C14.parse_raising_callable_is_ParserError
 #print axioms C14.tzstring_query_raises
